@@ -240,6 +240,9 @@ def gen_cases(rng, n_sort, n_sim):
             o1 = dict(c["ops"][0], max_time=rng.choice([1, 2, 3]))
             o2 = dict(c["ops"][0], init_state=False, init_log=False, rule=rng.choice([r for r in range(9) if r != o1["rule"]]))
             c["ops"] = [o1, o2]
+        if c.get("int_rules"):
+            for o in c["ops"]:
+                o["int_rule"] = True
         cases.append(c)
     return cases
 
